@@ -69,10 +69,11 @@ type State struct {
 	pc    Term
 	cells map[cellKey]Val
 	heaps map[string]Term
+	why   string // for panic states: where the panic originates
 }
 
 func (s *State) clone() *State {
-	n := &State{pc: s.pc, cells: make(map[cellKey]Val, len(s.cells)), heaps: make(map[string]Term, len(s.heaps))}
+	n := &State{pc: s.pc, why: s.why, cells: make(map[cellKey]Val, len(s.cells)), heaps: make(map[string]Term, len(s.heaps))}
 	for k, v := range s.cells {
 		n.cells[k] = v
 	}
@@ -830,6 +831,25 @@ func (fc *FnCtx) mergeVals(prefix string, guards []Term, vals []Val) Val {
 	return &Poison{"unmergeable values"}
 }
 
+// lazyCellInit gives the initial value of a frame-independent cell that a state has not touched yet.
+func (fc *FnCtx) lazyCellInit(st *State, k cellKey) (Val, bool) {
+	if k.frame != 0 || k == keyAlloc || k == keyNow || k == keyPanicking {
+		return nil, false
+	}
+	switch v := k.v.(type) {
+	case string:
+		if strings.HasPrefix(v, "sent:") || strings.HasPrefix(v, "closed:") {
+			return intLit(0), true
+		}
+		if g, ok := fc.eng.ghosts[v]; ok {
+			return fc.decls.constant("ghost_"+sanitize(v)+"_0", specSort(g.Type)), true
+		}
+	case *ssa.Global:
+		return fc.globalInit(st, v), true
+	}
+	return nil, false
+}
+
 type inEdge struct {
 	st   *State
 	cond Term
@@ -847,6 +867,13 @@ func (fc *FnCtx) mergeStates(label string, ins []inEdge) *State {
 	}
 	out := &State{cells: map[cellKey]Val{}, heaps: map[string]Term{}}
 	out.pc = fc.nameTerm("pc_"+label, tOr(guards...))
+	var whys []string
+	for _, in := range ins {
+		if in.st.why != "" && (len(whys) == 0 || whys[len(whys)-1] != in.st.why) {
+			whys = append(whys, in.st.why)
+		}
+	}
+	out.why = strings.Join(whys, "; ")
 	// cells
 	keys := map[cellKey]bool{}
 	for _, in := range ins {
@@ -861,6 +888,15 @@ func (fc *FnCtx) mergeStates(label string, ins []inEdge) *State {
 			if v, ok := in.st.cells[k]; ok {
 				gs = append(gs, guards[i])
 				vs = append(vs, v)
+			} else if _, isDefer := k.v.(*ssa.Defer); isDefer {
+				// a path that did not execute the defer statement has nothing registered
+				gs = append(gs, guards[i])
+				vs = append(vs, tFalse)
+			} else if iv, ok := fc.lazyCellInit(in.st, k); ok {
+				// lazily created global-scope cells (ghost variables, counters, package variables):
+				// a state that never touched them still holds the initial value
+				gs = append(gs, guards[i])
+				vs = append(vs, iv)
 			} else if k == keyAlloc || k == keyNow || k == keyPanicking {
 				// lazily created special cells: materialise initial value
 				var v Val
@@ -1343,6 +1379,13 @@ func (fc *FnCtx) havocLoop(fr *Frame, st *State, li *loopInfo) {
 			}
 		}
 		st.cells[k] = fc.havocValue(st, name, t)
+		if a, ok := k.v.(*ssa.Alloc); ok && a.Comment == "rangeindex" {
+			// the hidden index of a range loop starts at -1 and is only ever incremented
+			if vt, ok := st.cells[k].(Term); ok {
+				// and never exceeds the length of the collection (< 2^47)
+				fc.assume(st, tAnd(tLe(intLit(-1), vt), tLe(vt, bigLit(maxLenS))))
+			}
+		}
 	}
 	var hs []string
 	for h := range modHeaps {
